@@ -112,11 +112,42 @@ static void bombs(Rng& r, long which) {
     }
 }
 
+// ---- typed option decoders against hostile option bodies ------------------------------------------------------
+// For every option-bearing class and every option code: a well-formed layer built by an independent byte encoder
+// carrying one option of that code with every body length 0..48 and boundary-heavy contents (small counts, pad
+// lengths around the body size, 0xff runs). Parsing accepts most of them; the accessor sweep then runs every typed
+// getter whose code matches against that body.
+static void optfuzz(long idx, Rng& r) {
+    static const char* classes[] = {"ICMPv6", "ICMPv6/NS", "DHCP", "DHCPv6", "TCP", "IP", "Dot11Beacon", "Dot11AssocRequest", "PPPoE"};
+    const u32 K = 9; u32 which = (u32)(idx % K); u32 code = (u32)((idx / K) % 256);
+    auto ent = [&](const char* n) -> const Entry& { for (auto& e : entries) if (e.name == n) return e; return entries[0]; };
+    for (u32 L = 0; L <= 48; ++L) for (u32 variant = 0; variant < 5; ++variant) {
+        Bytes body(L);
+        for (u32 i = 0; i < L; ++i) switch (variant) { case 0: body[i] = 0; break; case 1: body[i] = 0xff; break; case 2: body[i] = (u8)r.edgy(8); break; case 3: body[i] = r.byte(); break; default: body[i] = (u8)(L - i + (long)r.below(5) - 2); }
+        if (L && variant >= 2 && r.chance(1, 2)) body[0] = (u8)(L + (long)r.below(7) - 4);      // pad/count octets around the body size
+        if (L > 1 && variant >= 2 && r.chance(1, 2)) body[1] = (u8)(L + (long)r.below(7) - 4);
+        Bytes b; const char* entry = classes[which];
+        switch (which) {
+            case 0: case 1: { u32 units = (2 + L + 7) / 8; if (units > 255) continue; b = which == 0 ? Bytes{134, 0, 0, 0, 64, 0, 0, 30, 0, 0, 0, 0, 0, 0, 0, 0} : Bytes{135, 0, 0, 0, 0, 0, 0, 0, 0x20, 1, 0, 0, 0, 0, 0, 0, 0, 0, 0, 0, 0, 0, 0, 1};
+                b.push_back((u8)code); b.push_back((u8)units); b.insert(b.end(), body.begin(), body.end()); b.resize(b.size() + units * 8 - 2 - L, 0); entry = "ICMPv6"; break; }
+            case 2: { b.assign(236, 0); b[0] = 1; b[1] = 1; b[2] = 6; Bytes m = {99, 130, 83, 99}; b.insert(b.end(), m.begin(), m.end()); if (code == 0 || code == 255) continue; b.push_back((u8)code); b.push_back((u8)L); b.insert(b.end(), body.begin(), body.end()); b.push_back(255); break; }
+            case 3: { b = {1, 0x12, 0x34, 0x56, 0, (u8)code, 0, (u8)L}; b.insert(b.end(), body.begin(), body.end()); break; }
+            case 4: { if (L > 38 || code < 2) continue; u32 ol = 2 + L, pad = (4 - ol % 4) % 4; b.assign(20, 0); b[12] = (u8)(((20 + ol + pad) / 4) << 4); b.push_back((u8)code); b.push_back((u8)ol); b.insert(b.end(), body.begin(), body.end()); b.resize(b.size() + pad, 1); break; }
+            case 5: { if (L > 38 || code < 2) continue; u32 ol = 2 + L, pad = (4 - ol % 4) % 4; b.assign(20, 0); b[0] = (u8)(0x40 | ((20 + ol + pad) / 4)); u32 tot = 20 + ol + pad; b[2] = (u8)(tot >> 8); b[3] = (u8)tot; b[8] = 64; b[9] = 253; b.push_back((u8)code); b.push_back((u8)ol); b.insert(b.end(), body.begin(), body.end()); b.resize(b.size() + pad, 0); break; }
+            case 6: case 7: { b.assign(24, 0); b[0] = which == 6 ? 0x80 : 0x00; b.resize(24 + (which == 6 ? 12 : 4), 0); b.push_back((u8)code); b.push_back((u8)L); b.insert(b.end(), body.begin(), body.end()); break; }
+            default: { b = {0x11, 0x09, 0, 0, (u8)((4 + L) >> 8), (u8)(4 + L), (u8)(code & 0x0f ? 1 : 2), (u8)(code >> 4), (u8)(L >> 8), (u8)L}; b.insert(b.end(), body.begin(), body.end()); }
+        }
+        run_input(ent(entry), b, "optfuzz");
+        cnt(std::string("optfuzz:") + classes[which]);
+    }
+}
+
 int main(int argc, char** argv) {
     register_all();
     return vf::run(argc, argv, "C01", [&](long idx, Rng& r) {
         const Args& a = st().a;
         if (idx == 0) { cnt("entry_points", entries.size()); cnt("seeds", seeds.size()); for (auto& e : entries) { cnt("ok:" + e.name, 0); if (e.can_reject) cnt("rej:" + e.name, 0); } }
+        if (a.mode == "optfuzz") { optfuzz(idx, r); cnt("inputs", inputs_run); inputs_run = 0; return; }
         const size_t nE = entries.size(), nS = seeds.size();
         if (idx < 12) { bombs(r, idx); }
         const Entry& e = entries[idx % nE];
